@@ -12,7 +12,8 @@ import json
 import os
 import sys
 
-sys.path.insert(0, "/repo/src")
+REPO_SRC = os.environ.get("VERIF_REPO_SRC", "/repo/src")
+sys.path.insert(0, REPO_SRC)
 
 
 def main():
